@@ -254,5 +254,38 @@ def r4_seed_flow(chk: Check) -> None:
     chk.expect("seed=config.engine.execution.seed" in unparse(ih.node, 100000), "C13.R4", ih, "the chosen seed is handed to the output handler", "the seed used is not reported", ih.loc())
 
 
+def r5_no_shared_mutation(chk: Check) -> None:
+    chk.rule("C13.R5", "OWNERSHIP(shared configuration containers): in request-shaping code a set / list / dict PARAMETER is never updated in place by an augmented assignment (`s -= ...`, `s |= ...`, `l += ...`): the object belongs to the caller - typically the run's configuration, shared by all operations, workers and runs - so what an operation gets would depend on which operations were prepared before it", floor=1)
+    P = chk.project
+    n = 0
+    for fn in P.all_functions():
+        if isinstance(fn.node, ast.Lambda) or not fn.module.relpath.startswith(SHAPING_PREFIXES):
+            continue
+        a = fn.node.args
+        anns = {x.arg: unparse(x.annotation).lower() if x.annotation is not None else "" for x in a.posonlyargs + a.args + a.kwonlyargs}
+        containers = {k for k, v in anns.items() if any(w in v for w in ("set[", "set ", "list", "dict", "mapping", "sequence", "frozenset")) or v in ("set", "list", "dict")}
+        if not containers:
+            continue
+        n += 1
+        rebound = {t.id for x in walk_body(fn.node) if isinstance(x, ast.Assign) for t in x.targets if isinstance(t, ast.Name)}
+        for x in walk_body(fn.node):
+            if isinstance(x, ast.AugAssign) and isinstance(x.target, ast.Name) and x.target.id in containers:
+                # a parameter that was re-bound to a fresh object earlier in the function is the function's own
+                first_rebind = min((s_.lineno for s_ in walk_body(fn.node) if isinstance(s_, ast.Assign) and any(is_var(t, x.target.id) for t in s_.targets)), default=None)
+                if x.target.id in rebound and first_rebind is not None and first_rebind < x.lineno and not any(
+                        isinstance(s_, ast.Assign) and any(is_var(t, x.target.id) for t in s_.targets) and isinstance(s_.value, ast.BoolOp) for s_ in walk_body(fn.node)):
+                    chk.ok("C13.R5", fn, f"`{unparse(x, 50)}` on a re-bound parameter", "the name was bound to a fresh object first", fn.loc(x))
+                else:
+                    chk.violation("C13.R5", fn, f"`{unparse(x, 50)}`",
+                                  f"the parameter `{x.target.id}` ({anns[x.target.id]}) is modified in place: when the caller passes its configured container (one object for the whole run) every call shrinks / grows it, so the requests generated for an operation depend on the order in which operations are prepared - different with several workers, different for a second run in the same process",
+                                  fn.loc(x))
+    fixture = ast.parse("def f(unexpected_methods: set[str] | None = None):\n    unexpected_methods -= {1}\n")
+    ff = fixture.body[0]
+    hit = any(isinstance(x, ast.AugAssign) for x in ast.walk(ff))
+    chk.decide(hit, "C13.R5", "<fixture>", "positive fixture: augmented assignment on a set parameter is recognised", "matcher broken", "<fixture>")
+    if n < 1:
+        chk.undecided("C13.R5", "<discovery>", f"functions={n}", "no function with container-typed parameters found")
+
+
 def rules(tier: str) -> list:  # type: ignore[type-arg]
-    return [r1_entries, r2_entropy, r3_unordered, r4_seed_flow]
+    return [r1_entries, r2_entropy, r3_unordered, r4_seed_flow, r5_no_shared_mutation]
